@@ -15,6 +15,11 @@ Definition q_ev_padd := peval_padd Q 0%Q 1%Q Qplus Qmult Qminus Qopp Qeq (fun x 
 Definition q_ev_pscale := peval_pscale Q 0%Q 1%Q Qplus Qmult Qminus Qopp Qeq (fun x => x) Q_Setoid Qreqe Qsrt Qidmorph.
 Definition q_ev_psubst := peval_psubst Q 0%Q 1%Q Qplus Qmult Qminus Qopp Qeq (fun x => x) Q_Setoid Qreqe Qsrt Qidmorph.
 
+(* tie of ElementHdiv.gbasis: the Piola scale is taken per cell AND per point (1/|det DF| at the same point as DF and phi),
+   and the value / div expressions are the ones translated into gen_hdiv_value, gen_hdiv_scale, gen_hdiv_div *)
+Lemma tie_hdiv_sites : gen_hdiv_scale_pointwise = true /\ gen_hdiv_sites_as_expected = true.
+Proof. split; reflexivity. Qed.
+
 (* the reference point G(x) is the affine image *)
 Lemma qimage_affine B c d x j :
   qimage B c d x j == c j + sumn Q 0%Q Qplus (fun k => B j k * x k) d.
@@ -291,3 +296,26 @@ Proof.
   { assert (E3 : orient * detB == orient * (detDF * detB) / detDF) by (field; assumption). rewrite E3, H. field. assumption. }
   rewrite E2. ring.
 Qed.
+
+(* ---- matrix Piola map (ElementMatrix: Hellan-Herrmann-Johnson), affine cells: the delivered value is
+   einsum('ijkl,jal,bakl,kl->ibkl', DF, phi, DF, 1/|det|^2) = J S J^T / det^2 (regenerated); contracted twice with the
+   covariantly mapped normal n = B^T N (B J = I) it returns c * N^T S N: the normal-normal component is the reference
+   normal-normal component times the scalar factor — what the normal-normal continuity of the element rests on ---- *)
+Theorem matrix_piola_normal_normal2 (J B S : nat -> nat -> Q) (N : nat -> Q) (c : Q) :
+  B 0%nat 0%nat * J 0%nat 0%nat + B 0%nat 1%nat * J 1%nat 0%nat == 1 ->
+  B 0%nat 0%nat * J 0%nat 1%nat + B 0%nat 1%nat * J 1%nat 1%nat == 0 ->
+  B 1%nat 0%nat * J 0%nat 0%nat + B 1%nat 1%nat * J 1%nat 0%nat == 0 ->
+  B 1%nat 0%nat * J 0%nat 1%nat + B 1%nat 1%nat * J 1%nat 1%nat == 1 ->
+  (B 0%nat 0%nat * N 0%nat + B 1%nat 0%nat * N 1%nat) * gen_matrix_value2 J S J c 0%nat 0%nat * (B 0%nat 0%nat * N 0%nat + B 1%nat 0%nat * N 1%nat) + (B 0%nat 0%nat * N 0%nat + B 1%nat 0%nat * N 1%nat) * gen_matrix_value2 J S J c 0%nat 1%nat * (B 0%nat 1%nat * N 0%nat + B 1%nat 1%nat * N 1%nat) + (B 0%nat 1%nat * N 0%nat + B 1%nat 1%nat * N 1%nat) * gen_matrix_value2 J S J c 1%nat 0%nat * (B 0%nat 0%nat * N 0%nat + B 1%nat 0%nat * N 1%nat) + (B 0%nat 1%nat * N 0%nat + B 1%nat 1%nat * N 1%nat) * gen_matrix_value2 J S J c 1%nat 1%nat * (B 0%nat 1%nat * N 0%nat + B 1%nat 1%nat * N 1%nat)
+  == c * (N 0%nat * S 0%nat 0%nat * N 0%nat + N 0%nat * S 0%nat 1%nat * N 1%nat + N 1%nat * S 1%nat 0%nat * N 0%nat + N 1%nat * S 1%nat 1%nat * N 1%nat).
+Proof.
+  intros H00 H01 H10 H11. unfold gen_matrix_value2.
+  transitivity (c * ((N 0%nat * (B 0%nat 0%nat * J 0%nat 0%nat + B 0%nat 1%nat * J 1%nat 0%nat) + N 1%nat * (B 1%nat 0%nat * J 0%nat 0%nat + B 1%nat 1%nat * J 1%nat 0%nat)) * S 0%nat 0%nat * (N 0%nat * (B 0%nat 0%nat * J 0%nat 0%nat + B 0%nat 1%nat * J 1%nat 0%nat) + N 1%nat * (B 1%nat 0%nat * J 0%nat 0%nat + B 1%nat 1%nat * J 1%nat 0%nat)) + (N 0%nat * (B 0%nat 0%nat * J 0%nat 0%nat + B 0%nat 1%nat * J 1%nat 0%nat) + N 1%nat * (B 1%nat 0%nat * J 0%nat 0%nat + B 1%nat 1%nat * J 1%nat 0%nat)) * S 0%nat 1%nat * (N 0%nat * (B 0%nat 0%nat * J 0%nat 1%nat + B 0%nat 1%nat * J 1%nat 1%nat) + N 1%nat * (B 1%nat 0%nat * J 0%nat 1%nat + B 1%nat 1%nat * J 1%nat 1%nat)) + (N 0%nat * (B 0%nat 0%nat * J 0%nat 1%nat + B 0%nat 1%nat * J 1%nat 1%nat) + N 1%nat * (B 1%nat 0%nat * J 0%nat 1%nat + B 1%nat 1%nat * J 1%nat 1%nat)) * S 1%nat 0%nat * (N 0%nat * (B 0%nat 0%nat * J 0%nat 0%nat + B 0%nat 1%nat * J 1%nat 0%nat) + N 1%nat * (B 1%nat 0%nat * J 0%nat 0%nat + B 1%nat 1%nat * J 1%nat 0%nat)) + (N 0%nat * (B 0%nat 0%nat * J 0%nat 1%nat + B 0%nat 1%nat * J 1%nat 1%nat) + N 1%nat * (B 1%nat 0%nat * J 0%nat 1%nat + B 1%nat 1%nat * J 1%nat 1%nat)) * S 1%nat 1%nat * (N 0%nat * (B 0%nat 0%nat * J 0%nat 1%nat + B 0%nat 1%nat * J 1%nat 1%nat) + N 1%nat * (B 1%nat 0%nat * J 0%nat 1%nat + B 1%nat 1%nat * J 1%nat 1%nat)))); [ring|].
+  rewrite H00, H01, H10, H11. ring.
+Qed.
+
+Theorem matrix_value_is_J_S_Jt (J S : nat -> nat -> Q) (c : Q) (i b : nat) :
+  gen_matrix_value2 J S J c i b
+  == c * (J i 0%nat * S 0%nat 0%nat * J b 0%nat + J i 0%nat * S 0%nat 1%nat * J b 1%nat
+          + J i 1%nat * S 1%nat 0%nat * J b 0%nat + J i 1%nat * S 1%nat 1%nat * J b 1%nat).
+Proof. unfold gen_matrix_value2. ring. Qed.
